@@ -78,13 +78,14 @@ func loadWorld(repo, stdlibDir string, patterns []string) (*World, error) {
 	if stdlibDir != "" {
 		files, _ := filepath.Glob(filepath.Join(stdlibDir, "*.spec"))
 		sort.Strings(files)
-		for _, f := range files {
+		for fi, f := range files {
 			src, err := os.ReadFile(f)
 			if err != nil {
 				return nil, err
 			}
 			cf := &ContractFile{Path: f}
-			if err := parseContracts(f, "", string(src), 1, cf); err != nil {
+			// line numbers order the declarations of the whole prelude (lemma A may use lemma B only if B comes first)
+			if err := parseContracts(f, "", string(src), 1+fi*100000, cf); err != nil {
 				return nil, err
 			}
 			if err := w.register(nil, cf, true); err != nil {
@@ -204,4 +205,14 @@ func (w *World) register(pi *PkgInfo, cf *ContractFile, stdlib bool) error {
 		w.contracts[fn.String()] = fc
 	}
 	return nil
+}
+
+var stdPkgInfo *PkgInfo
+
+// stdPkg: pseudo package for the shared prelude (/verif/stdlib/*.spec)
+func (w *World) stdPkg() *PkgInfo {
+	if stdPkgInfo == nil {
+		stdPkgInfo = &PkgInfo{path: "stdlibspec", types: types.NewPackage("stdlibspec", "stdlib"), funcs: map[string]*ssa.Function{}}
+	}
+	return stdPkgInfo
 }
